@@ -200,13 +200,27 @@ def compare(case, res, lens, states):
     return None
 
 
-def shrink(case, oracle):
+def py_check(W, ops, lens):
+    """Python rendering of HLL.checkb (used only to steer shrinking; the verdict reported is Coq's)."""
+    seen, prev = set(), 0
+    for k, (v, x) in enumerate(zip(ops, lens)):
+        dup = v in seen
+        seen.add(v)
+        if (dup and x != prev) or (len(seen) <= W and x != len(seen)):
+            return k
+        prev = x
+    return None
+
+
+def shrink(case, oracle, raised=False, prop_level=False):
     """Greedy op deletion while implementation and mirror still disagree (re-running the real code)."""
     cur = case
 
     def bad(c, r):
         if not r["ok"]:
-            return True
+            return raised          # keep the kind of failure: a raising run only shrinks to raising runs
+        if prop_level:             # ... and a failure of the property's own clauses stays one
+            return py_check(c["W"], c["ops"], r["lens"]) is not None
         if oracle == "xxh":
             hs = r["hashes"]
         elif all(o is not None for o in r["own"]):
@@ -233,6 +247,12 @@ def shrink(case, oracle):
             size //= 2
             if len(cands) > 400:
                 break
+        for w2 in {cur["W"] // 2, cur["W"] - 1, 1, 2}:
+            if 1 <= w2 < cur["W"]:
+                cands.append(dict(cur, W=w2))
+        for p2 in (2, 3, 4):
+            if p2 < cur["p"]:
+                cands.append(dict(cur, p=p2))
         try:
             rs = vlib.run_impl("impl_c14.py", {"cases": cands})["results"]
         except vlib.Broken:
@@ -240,7 +260,7 @@ def shrink(case, oracle):
         hit = [c for c, r in zip(cands, rs) if bad(c, r)]
         if not hit:
             break
-        cur = min(hit, key=lambda c: len(c["ops"]))
+        cur = min(hit, key=lambda c: (len(c["ops"]), c["W"], c["p"]))
     # drop unused values
     used = sorted(set(cur["ops"]))
     ren = {v: i for i, v in enumerate(used)}
@@ -328,10 +348,16 @@ def check_small(run, cases):
                              "_hasher_update: the hash function is no longer xxh32(seed=p) of the value bytes (allowed by "
                              "the theorems, which hold for every hash)" % hist["alt_oracle"])
     # report (at most a few), shrunk, with the Coq checker's verdict on the implementation's len() values
+    real_fails.sort(key=lambda f: (not res[f[0]]["ok"], cases[f[0]]["W"] == 0,
+                                   py_check(cases[f[0]]["W"], cases[f[0]]["ops"], res[f[0]]["lens"]) is None,
+                                   f[1][0], len(cases[f[0]]["ops"])))
     for i, d, oracle in real_fails[:3]:
         c, r = cases[i], res[i]
         cut = dict(c, ops=c["ops"][:d[0] + 1])
-        small = shrink(cut, oracle) if len(cut["ops"]) > 1 else cut
+        plevel = r["ok"] and py_check(c["W"], c["ops"], r["lens"]) is not None
+        if plevel:
+            cut = dict(c, ops=c["ops"][:py_check(c["W"], c["ops"], r["lens"]) + 1])
+        small = shrink(cut, oracle, raised=not r["ok"], prop_level=plevel) if len(cut["ops"]) > 1 else cut
         rr = vlib.run_impl("impl_c14.py", {"cases": [small]})["results"][0]
         clause = d[1]
         verdict = None
